@@ -639,6 +639,72 @@ def rule_r8(prog, res) -> None:
         raise AnalysisError(f"C11.R8: only {n} typed fields with an explicit conversion found in to_dict methods, minimum 2")
 
 
+def name_derivations(prog, fi, ev_fi, e: ast.AST) -> list[str]:
+    """the files of a multi-file product that an expression names: '<suffix>' when the suffix replaces the prefix's
+    own (prefix.with_suffix(".dat")), '+<suffix>' when it is appended (Path(f"{prefix}.dat"), str(prefix) + ".dat");
+    the two derivations name different files as soon as the prefix contains a dot"""
+    from ..effects import const_str
+
+    out = []
+    for x in ast.walk(e):
+        if isinstance(x, ast.Call) and isinstance(x.func, ast.Attribute) and x.func.attr == "with_suffix" and x.args:
+            sfx = const_str(prog, ev_fi, x.args[0]) or const_str(prog, fi, x.args[0])
+            if sfx is not None:
+                out.append(sfx)
+        tail = None
+        if isinstance(x, ast.JoinedStr) and len(x.values) >= 2 and isinstance(x.values[-1], ast.Constant) and isinstance(x.values[-2], ast.FormattedValue):
+            tail = x.values[-1].value
+        elif isinstance(x, ast.BinOp) and isinstance(x.op, ast.Add) and not isinstance(x.left, ast.Constant):
+            tail = const_str(prog, ev_fi, x.right) or const_str(prog, fi, x.right)
+        if isinstance(tail, str) and tail.startswith(".") and tail.count(".") == 1 and len(tail) <= 6:
+            out.append("+" + tail)
+    return out
+
+
+def rule_r9(prog, res) -> None:
+    """multi-file products: the reader derives each file name from the prefix in the same way as the writer (both
+    replace the suffix or both append it) and reads no file the writer does not write — decided on the symbolic
+    store of every to_files / from_files pair"""
+    from .. import symx
+
+    n = 0
+    for ci in prog.classes:
+        w, r = ci.methods.get("to_files"), ci.methods.get("from_files")
+        if w is None or r is None or w.is_abstract or r.is_abstract:
+            continue
+        names = {}
+        for role, fi in (("write", w), ("read", r)):
+            got = set()
+            for p in symx.explore(prog, fi, env={"on_root()": True, "on_worker()": False}, inline=symx.inline_private_helpers(prog, public={"write_data", "write_samples", "write_covariance", "write_header", "load_data", "load_samples", "load_header"}), skip_tests=("logger",)):
+                if p.outcome == "raise":
+                    continue
+                for ev in p.calls():
+                    f = ev.expr.func
+                    if isinstance(f, ast.Attribute) and f.attr in ("unlink", "with_suffix", "exists"):
+                        continue
+                    for a in [*ev.expr.args, *[k.value for k in ev.expr.keywords]]:
+                        got.update(name_derivations(prog, fi, ev.fi, a))
+            names[role] = got
+        if not names["write"] or not names["read"]:
+            raise AnalysisError(f"C11.R9: file names of {ci.name}.to_files / from_files not recognised ({names})")
+        n += 1
+        res.touch(w)
+        res.touch(r)
+        bad = sorted(x for x in names["read"] if x not in names["write"])
+        if bad:
+            other = [x for x in bad if (x[1:] if x.startswith("+") else "+" + x) in names["write"]]
+            why = (
+                f"from_files {'appends' if other[0].startswith('+') else 'replaces'} the suffix '{other[0].lstrip('+')}' where to_files {'replaces' if other[0].startswith('+') else 'appends'} it: for a prefix that contains a dot the product is not found, or another product is read"
+                if other
+                else f"from_files reads '{bad[0]}', which to_files never writes"
+            )
+            res.violation("C11.R9", r, r.node, f"{ci.name}: {why}", key_extra=f"file-name-derivation-{ci.name}")
+        else:
+            res.ok("C11.R9", res.site(r, "file names"), f"reads {sorted(names['read'])}, all written the same way by to_files ({sorted(names['write'])})")
+    if n == 0:
+        raise AnalysisError("C11.R9: no to_files / from_files pair found")
+
+
 RULES = [
     ("C11.R1", rule_r1, QUICK),
     ("C11.R2", rule_r2, QUICK),
@@ -648,4 +714,5 @@ RULES = [
     ("C11.R6", rule_r6, QUICK),
     ("C11.R7", rule_r7, QUICK),
     ("C11.R8", rule_r8, QUICK),
+    ("C11.R9", rule_r9, QUICK),
 ]
